@@ -1,6 +1,6 @@
 (* C39 — Pathspecs select the same paths as git: the theorems.  See NOTES.md for what is proved and what is tested. *)
 From GixV.Base Require Import Bytes BytesFacts Outcome.
-From GixV.C39 Require Import Glob GitWild Model Spec Proofs ProofsLit ProofsSel ProofsRT.
+From GixV.C39 Require Import Glob GitWild Model Spec Proofs ProofsLit ProofsSel ProofsCp ProofsRT.
 
 (* The whole property (not proved in this generality): for every defaults/prefix/spec list that git
    accepts outside the known classes, gix builds a search and selects exactly the paths git selects. *)
@@ -61,20 +61,34 @@ Theorem match_verbatim_computes_verbatim_b : forall m rela is_dir,
   verbatim_b (p_path (m_pat m)) (has_flag (pmode (m_glob m)) MUST_BE_DIR) rela is_dir.
 Proof. exact match_verbatim_is_verbatim_b. Qed.
 
-(* 6. selection = git for searches over wildcard-free, case-sensitive patterns whose positive patterns share no
-      prefix (common_prefix_len = 0): any number of positive and negative patterns, trailing slashes, directories;
-      with only negative patterns git's implicit match-all item is the counterpart of `all_patterns_are_excluded` *)
+(* 6. the common-prefix shortcut is sound: `from_specs` stores `common_prefix_len` of its patterns, and when a
+      relative path does not start with the common prefix no positive pattern (normalized, case-sensitive,
+      wildcard-free) matches it *)
+Theorem from_specs_stores_common_prefix_len : forall ps prefix s,
+  from_specs ps prefix = Ok s -> common_prefix_len (patterns s) = Ok (cpl s).
+Proof. exact from_specs_cpl. Qed.
+
+Theorem common_prefix_shortcut_sound : forall s rela d cp,
+  common_prefix_len (patterns s) = Ok (cpl s) -> Forall lit_wf2 (patterns s) ->
+  common_prefix s = Ok cp ->
+  match get_to rela (cpl s) with None => true | Some x => negb (bytes_eqb x cp) end = true ->
+  forall m, In m (patterns s) -> is_excluded (m_pat m) = false -> matches_b m rela d = false.
+Proof. exact shortcut_sound. Qed.
+
+(* 7. selection = git for every search over normalized, wildcard-free, case-sensitive patterns: any number of
+      positive and negative patterns, trailing slashes, directories, any common prefix; with only negative
+      patterns git's implicit match-all item is the counterpart of `all_patterns_are_excluded` *)
 Theorem select_is_git_literal_partial : forall s ex inc rela d,
-  rela <> [] -> cpl s = O -> patterns s = ex ++ inc ->
+  rela <> [] -> common_prefix_len (patterns s) = Ok (cpl s) -> patterns s = ex ++ inc ->
   all_excluded s = forallb (fun m => is_excluded (m_pat m)) (patterns s) ->
-  Forall lit_wf (patterns s) ->
+  Forall lit_wf2 (patterns s) ->
   Forall (fun m => is_excluded (m_pat m) = true) ex ->
   Forall (fun m => is_excluded (m_pat m) = false) inc ->
   exists o, pattern_matching s rela d = Ok o /\ selected o = match_pathspec (git_items s) rela d.
-Proof. exact select_literal. Qed.
+Proof. exact select_literal_cp. Qed.
 
 (* ---- non-vacuity -------------------------------------------------------------------------------------- *)
-Definition ex_specs : list bytes := [bs "d/"; bs ":!d/e"; bs "a"].
+Definition ex_specs : list bytes := [bs "d/"; bs ":!d/e"; bs "d/a"].
 Definition ex_pats : list pat :=
   flat_map (fun s => match parse d0 s with Ok p => [p] | _ => [] end) ex_specs.
 Definition ex_search : search := match from_specs ex_pats [] with Ok s => s | _ => {| patterns := []; all_excluded := true; cpl := O |} end.
@@ -86,21 +100,21 @@ Example ex_roundtrip_hyp : exists p, parse d0 (bs ":(top,icase)a*/") = Ok p /\ t
 Proof. eexists; split; reflexivity. Qed.
 
 Example ex_search_shape :
-  cpl ex_search = O /\ length (patterns ex_search) = 3%nat /\ all_excluded ex_search = false /\
+  cpl ex_search = 1%nat /\ common_prefix ex_search = Ok (bs "d") /\ length (patterns ex_search) = 3%nat /\ all_excluded ex_search = false /\
   map (fun m => is_excluded (m_pat m)) (patterns ex_search) = [true; false; false].
 Proof. vm_compute. repeat split. Qed.
 
-Example ex_search_lit_wf : Forall lit_wf (patterns ex_search).
+Example ex_search_lit_wf : Forall lit_wf2 (patterns ex_search).
 Proof.
   repeat constructor; try discriminate; vm_compute; try reflexivity; try discriminate.
 Qed.
 
-(* d/x is selected, d/e/y is excluded, b is not matched, the directory d is selected by `d/` only as a directory *)
+(* d/x is selected, d/e/y is excluded, b and dir/f are cut off by the common prefix `d`, `d` is selected only as a directory *)
 Example ex_selection :
   map (fun p => match pattern_matching ex_search (fst p) (snd p) with Ok o => selected o | _ => false end)
-      [(bs "d/x", false); (bs "d/e/y", false); (bs "b", false); (bs "d", true); (bs "d", false); (bs "a", false)] =
-  [true; false; false; true; false; true] /\
+      [(bs "d/x", false); (bs "d/e/y", false); (bs "b", false); (bs "d", true); (bs "d", false); (bs "dir/f", false)] =
+  [true; false; false; true; false; false] /\
   map (fun p => match_pathspec (git_items ex_search) (fst p) (snd p))
-      [(bs "d/x", false); (bs "d/e/y", false); (bs "b", false); (bs "d", true); (bs "d", false); (bs "a", false)] =
-  [true; false; false; true; false; true].
+      [(bs "d/x", false); (bs "d/e/y", false); (bs "b", false); (bs "d", true); (bs "d", false); (bs "dir/f", false)] =
+  [true; false; false; true; false; false].
 Proof. vm_compute. split; reflexivity. Qed.
